@@ -18,6 +18,24 @@ BUILT = {
   note="Trusted: TLC, Bitwise module. The burst sweep itself is native enumeration with a TLC-proved constant oracle. Header.CheckIntegrity only for sizes 12 and 14.",
   technique="TLC lemmas on the CRC (burst detection) + native burst sweep against the real code + TLC trace validation of integrity verdicts across the four header-checking APIs",
   design="DESIGN.md section 5, C04"),
+ "C05": dict(
+  level="model_checking",
+  text="The independent parser is the TLA+ reference decoder FitRef, interpreted by TLC: for every recorded Encode call it parses the bytes written (header, data size, both CRCs, definition before data, record length = sum of field sizes, sizes multiples of the base type, the walk ending exactly at the data size) and compares every message on the wire with the projection of the File taken before the call (arrays up to invalid padding and profile length, strings up to profile length - 1, local times by wall clock), then the post-state clause (File.Header.DataSize, File.Header.CRC, File.CRC = values parsed from the output). Files are built by reflection through the public constructors over all 17 file types: random field subsets at three densities, fresh and non-fresh headers (CRC/DataSize left by an earlier call), a second Encode after modifying the File, out-of-domain values (invalid UTF-8, over-long strings/arrays: Encode may refuse, but whatever it writes must parse), both byte orders, headers with and without CRC; thorough adds every hosted message type with every field alone.",
+  note="Trusted: TLC. No exhaustive EncoderImpl model is claimed; binding is by trace validation of real Encode calls.",
+  technique="TLA+ FIT grammar/reference decoder as independent parser + TLC trace validation of recorded Encode calls",
+  design="DESIGN.md section 5, C05"),
+ "C06": dict(
+  level="model_checking",
+  text="In-domain Files (every hosted message type with every field alone in both byte orders, plus random subsets) are encoded, the output decoded and integrity-checked with the real code. TLC validates both arrows over the shared wire bytes: the encode event (File vs wire, with the property's relaxations) and the decode event (wire vs decoded File, exact Contract values incl. component-derived fields); their composition is the property's field-for-field relation, including message counts and order per slot and the file type.",
+  note="Trusted: TLC. Domain as drawn by the generator (strings <= profile length - 1 bytes of valid UTF-8, arrays <= profile length, times with in-range readings, valid coordinates); string fields of profile length 1 stay unset. Differences confined to accumulated component destinations are C18's known findings and are not reported here.",
+  technique="TLA+ reference decoder + TLC trace validation of encode and decode events sharing the wire bytes",
+  design="DESIGN.md section 5, C06"),
+ "C07": dict(
+  level="model_checking",
+  text="For every input that the real Decode accepts (device files, profile-driven generated streams, string streams with unterminated / multi-byte strings, long message groups with late-appearing fields) the chain x -> F0 -> e1 -> F1 -> e2 -> F2 is executed with alternating byte orders; each Decode and Encode call is validated by TLC (decode events against FitRef, encode events against the File encoded), e1 must pass CheckIntegrity, every re-decode must succeed, and F1 = F2 on content. Encode failures are violations unless they match a listed finding.",
+  note="Trusted: TLC. Known finding: decoded strings that are not valid UTF-8 cannot be re-encoded. Messages that no container holds, unknown and developer fields are not File content.",
+  technique="TLA+ reference decoder + TLC trace validation of two re-encode generations per accepted input",
+  design="DESIGN.md section 5, C07"),
  "C10": dict(
   level="model_checking",
   text="FrameImpl.tla transcribes the decoder's reader (binary.Read of the size byte, io.ReadFull of the header, fill with min(buffer, limit - n), readByte/readFull, checkCRC, the DecodeChained loop) against an environment that answers every Read with any 1..req available bytes, EOF or a fault (optionally together with the last bytes). TLC checks NeverPastFrame, SuccessConsumesExactly, CleanEndIsOk, PartialContent and termination for every cut point, every fault point and every chunking of small chains (the state is position/buffered/fetched, so 2^n chunkings collapse to O(n^2) states). Recorded calls of the real code (valid files followed by trailing bytes x 10 chunk scripts x 5 entry points; chains of 2-3 files) are validated by TLC: every Read request ends inside its frame, success consumes header+data+2, every chained file equals the Contract's decode; chained results are also compared with the same bytes decoded alone, and DecodeHeader / DecodeHeaderAndFileID with the Contract's header and file_id.",
